@@ -248,6 +248,23 @@ func check(propID, tier string) int {
 	for _, d := range b.deaths {
 		oracle, class, detail, ok := classifyDeath(propID, d)
 		if !ok {
+			if strings.Contains(d.stderr, "verif-watchdog:") && d.k >= 0 && !d.hasBox {
+				// The wall-clock watchdog is the one oracle that depends on the host: a child that got no
+				// processor for the stall period (an overloaded machine) looks like a stalled run. The run
+				// is a function of its index: run it again, alone, in a fresh process. If it completes, the
+				// stall was the host's and the run's result is the re-run's; if it stalls again, it stands.
+				ev := &evaluator{bin: sc.sim, env: plainEnv, memKB: cfg.memKB, dir: sc.dir, prop: propID, timeout: cfg.runTimeout}
+				s := seed
+				if d.race {
+					ev.bin, ev.env, ev.memKB, ev.race = sc.simRace, raceEnv, 0, true
+					s = seed ^ 0x5ace
+				}
+				plan := &core.Plan{Property: propID, Tier: tier, Mode: "@" + strconv.FormatInt(d.k, 10), Seed: core.Mix(s, uint64(d.k)), RunIndex: uint64(d.k)}
+				if r := ev.eval(plan); r.class == "" && !r.hard && r.rec != nil {
+					b.probes["stalled_run_completed_when_rerun_alone"]++
+					continue
+				}
+			}
 			hard = append(hard, fmt.Sprintf("child died without a classifiable report (run %d group %q): %s", d.k, d.group, detail))
 			continue
 		}
